@@ -72,22 +72,30 @@ def snapshot(root, _seen=None, _depth=0):
 
 
 def module_state():
-    """module-level state of every pyvaporation module: globals that are data, and data attributes of its classes"""
+    """the module-level state the property names: built-in components and mixtures (class attributes holding repo objects) and
+    the constant lists of the modules (column names, method lists).  Other module-level containers (a cache, say) are not
+    compared here -- state leaking through them shows up as a repeated call returning something else."""
     out = {}
+
+    def is_const_list(v):
+        return isinstance(v, (list, tuple)) and all(isinstance(x, str) for x in v)
+
     for name, mod in sorted(sys.modules.items()):
         if not name.startswith("pyvaporation") or mod is None:
             continue
         for k, v in sorted(vars(mod).items()):
-            if k.startswith("__") or isinstance(v, (types.ModuleType, types.FunctionType, types.BuiltinFunctionType)):
+            if k.startswith("__"):
                 continue
             if isinstance(v, type):
                 if getattr(v, "__module__", "").startswith("pyvaporation"):
                     for ck, cv in sorted(vars(v).items()):
-                        if ck.startswith("__") or callable(cv) or isinstance(cv, (property, classmethod, staticmethod)):
+                        if ck.startswith("__"):
                             continue
-                        out["%s.%s.%s" % (name, k, ck)] = cv
+                        if attr.has(type(cv)) or is_const_list(cv) or isinstance(cv, (str, int, float)):
+                            out["%s.%s.%s" % (name, k, ck)] = cv
                 continue
-            out["%s.%s" % (name, k)] = v
+            if attr.has(type(v)) or is_const_list(v) or isinstance(v, (int, float)) and not isinstance(v, bool):
+                out["%s.%s" % (name, k)] = v
     return out
 
 
@@ -134,8 +142,12 @@ class World:
     def domain(self):
         ps = self.ps
         d = ps.domain() + [self.dx.t > 0, self.dx.t < 1, real("x1").t > 0, real("x1").t < 1]
-        for e in self.membrane.ideal_experiments.experiments:
+        exps = self.membrane.ideal_experiments.experiments
+        for e in exps:
             d += [e.temperature.t > 273, e.temperature.t < 400, e.permeance.value.t > 0]
+        for a, b in itertools.combinations(exps, 2):
+            if a.component is b.component:
+                d.append(a.temperature.t != b.temperature.t)  # distinct experiment temperatures: the regression is determined
         for m in self.meas.data:
             d += [m.x.t >= 0, m.x.t <= 1, m.t.t > 273, m.t.t < 400, m.p.t >= 0]
         return d
@@ -208,6 +220,12 @@ def concrete(inp):
         "nonideal_noniso": lambda: pz.non_ideal_non_isothermal_process(cond, curves, 2, 0.2, initial_permeances=P0, n_first=1, n_second=1, m_first=1, m_second=1, include_zero=True).feed_mass,
         "non_ideal_curve": lambda: [tuple(f) for f in pz.non_ideal_diffusion_curve(curves, 330.0, pv.Composition(0.3, "molar"), 0.05, 1, 293.15, None, P0, 5e-5, "NRTL", 1, 1, 1, 1, True).partial_fluxes],
     }
+    curves1 = realrun.curve_set(mix, 1, "weight")
+    calls.update({
+        "non_ideal_curve_single": lambda: [tuple(f) for f in pz.non_ideal_diffusion_curve(curves1, 330.0, pv.Composition(0.3, "weight"), 0.05, 1, None, None, None, 5e-5, "NRTL", 1, 1).partial_fluxes],
+        "nonideal_noniso_single": lambda: pz.non_ideal_non_isothermal_process(cond, curves1, 2, 0.2, n_first=1, n_second=1).feed_mass,
+        "nonideal_iso_single": lambda: pz.non_ideal_isothermal_process(cond, curves1, 2, 0.2, n_first=1, n_second=1).feed_mass,
+    })
     want = inp.get("entry")
     bad = []
     with warnings.catch_warnings():
@@ -228,7 +246,7 @@ def concrete(inp):
 
 def frame(job, mode, n_curves, names):
     job.bound(process_steps_N=2, curve_points=2, measurement_points=3, experiments_per_component=2, history_length=3)
-    job.stub("GAMMA/PSAT/HVAP/CP/COOL as uninterpreted functions", "scipy.optimize.minimize -> FIT(objective)", "numpy.linalg.lstsq not reached (energies stated)")
+    job.stub("GAMMA/PSAT/HVAP/CP/COOL as uninterpreted functions", "scipy.optimize.minimize -> FIT(objective)", "numpy.linalg.lstsq -> normal equations (single-curve models regress the activation energy)")
     job.assume("Composition validator / Permeance clamp as assumptions (raising runs end the call; purity is asserted on returning leaves and on raising leaves alike)")
     w = World(mode, n_curves)
     dom = w.domain()
@@ -239,6 +257,8 @@ def frame(job, mode, n_curves, names):
         build.assume_permeance_clamp(pt)
         stub = FitStub(job)
         pt.set(opt.optimize, "minimize", stub)
+        from .C12 import _lstsq_stub
+        pt.set(numpy.linalg, "lstsq", _lstsq_stub(job))
         cnt = flux.LoopCounter(pt, 1)
         from pyvaporation.pervaporation.pervaporation import Pervaporation as P_
         orig_cpf = P_.calculate_partial_fluxes
@@ -283,7 +303,7 @@ def frame(job, mode, n_curves, names):
                     if len(a) != len(b):
                         job.record("%s/leaf%d/repeatable" % (tag, n), "violated", "result shapes differ", replay={"fn": R_, "inputs": {"entry": name}})
                     elif a:
-                        cg = sorted({nm for (_, nm, _) in Pure.tab.values() if nm.startswith("FIT_") or nm in ("EXP", "LOG", "SQRT")})
+                        cg = sorted({nm for (_, nm, _) in Pure.tab.values()})
                         job.prove("%s/leaf%d/repeatable" % (tag, n), dom + leaf.conds(), [lift(p) != lift(q) for p, q in zip(a, b)], R_, {"entry": name},
                                   fallback=[{"entry": name}], timeout=20, congruence=cg)
             if n == 0:
@@ -302,6 +322,8 @@ def histories(job, mode, pairs):
         build.assume_permeance_clamp(pt)
         stub = FitStub(job)
         pt.set(opt.optimize, "minimize", stub)
+        from .C12 import _lstsq_stub
+        pt.set(numpy.linalg, "lstsq", _lstsq_stub(job))
         cnt = flux.LoopCounter(pt, 1)
         from pyvaporation.pervaporation.pervaporation import Pervaporation as P_
         orig_cpf = P_.calculate_partial_fluxes
@@ -320,7 +342,7 @@ def histories(job, mode, pairs):
                     break
                 r1, _, r3 = leaf.value
                 a, b = nums(r1), nums(r3)
-                cg = sorted({nm for (_, nm, _) in Pure.tab.values() if nm.startswith("FIT_") or nm in ("EXP", "LOG", "SQRT")})
+                cg = sorted({nm for (_, nm, _) in Pure.tab.values()})
                 if len(a) != len(b):
                     job.record("%s/leaf%d" % (tag, n), "violated", "result shapes differ", replay={"fn": R_, "inputs": {"entry": "all"}})
                 else:
@@ -339,8 +361,10 @@ def jobs(tier):
     js = []
     modes = ("ptemp",) if tier == "quick" else proc.MODES
     for mode in modes:
-        for nc in ((2,) if tier == "quick" else (1, 2)):
+        for nc in (1, 2):
             for g in GROUPS:
+                if tier == "quick" and nc == 1 and g[0] not in ("non_ideal_curve", "nonideal_iso", "nonideal_noniso"):
+                    continue  # the curve count only matters to the non-ideal entry points
                 js.append(("frame_%s_c%d_%s" % (mode, nc, g[0]), "frame", {"mode": mode, "n_curves": nc, "names": g}))
     pairs = [("fit", "find_best_fit"), ("find_best_fit", "nonideal_iso"), ("nonideal_noniso", "fit"), ("non_ideal_curve", "nonideal_noniso"),
              ("ideal_curve", "measurements_first")]
